@@ -45,7 +45,9 @@ def fail(node, msg):
 COQ_T = {"Z": "Z", "bool": "bool", "sym": "sym", "list:Z": "list Z", "list:list:Z": "list (list Z)", "list:prod:Z,Z": "list (Z * Z)",
          "list:optZ": "list (option Z)", "option:Z": "option Z", "matfun": "Z -> Z -> Z", "prod:Z,Z": "(Z * Z)",
          "prod:Z,list:prod:Z,Z": "(Z * list (Z * Z))", "prod:Z,list:Z": "(Z * list Z)",
-         "prod:list:prod:Z,Z,list:Z": "(list (Z * Z) * list Z)", "prod:list:prod:Z,Z,list:Z,list:Z": "(list (Z * Z) * list Z * list Z)"}
+         "prod:list:prod:Z,Z,list:Z": "(list (Z * Z) * list Z)",
+         "coef": "coef", "prod:Z,coef": "(Z * coef)", "list:prod:Z,coef": "list (Z * coef)", "list:list:prod:Z,coef": "list (list (Z * coef))",
+         "prod:list:list:prod:Z,coef,list:Z": "(list (list (Z * coef)) * list Z)", "fun:Z->list:Z": "Z -> list Z", "ptree": "ptree", "list:ptree": "list ptree", "prod:list:prod:Z,Z,list:Z,list:Z": "(list (Z * Z) * list Z * list Z)"}
 RESERVED = {"length", "rev", "map", "seq", "combine", "fold_left", "fst", "snd", "negb", "nil", "cons", "app", "Some", "None", "repeat",
             "sym", "fuel", "existsb", "firstn", "skipn", "nth"}
 
@@ -62,6 +64,8 @@ class Fn:
         self.shapes = shapes or {}
         self.pairs_tail = pairs_tail
         self.abstr, self.abstr_index, self.paircalls = {}, {}, {}
+        self.abstr_calls, self.wrapcalls, self.embcall = {}, {}, None
+        self.treecalls, self.allow_vararg = set(), None
         self.types = {}
         self.aux = []           # auxiliary Fixpoints (while loops)
         self.uses_fuel = any(isinstance(n, ast.While) for n in ast.walk(fdef))
@@ -73,7 +77,7 @@ class Fn:
             if isinstance(n, ast.arg) and n.arg in RESERVED:
                 n.arg += "_py"
             if isinstance(n, (ast.Try, ast.With, ast.Lambda, ast.FunctionDef, ast.ClassDef, ast.Global, ast.Nonlocal, ast.Yield, ast.Await,
-                              ast.ListComp, ast.DictComp, ast.SetComp, ast.GeneratorExp, ast.Starred, ast.Delete, ast.Assert, ast.Raise)) and n is not fdef:
+                              ast.ListComp, ast.DictComp, ast.SetComp, ast.GeneratorExp, ast.Delete, ast.Assert, ast.Raise)) and n is not fdef:
                 fail(n, "construct outside the subset")
 
     def fresh(self, base):
@@ -91,6 +95,47 @@ class Fn:
             if ti != "Z" or t != "list:Z":
                 fail(e, "index of an abstracted attribute")
             return "(pynth %s %s)" % (nm, i), "Z"
+        if isinstance(e, ast.Call) and ast.unparse(e.func) in self.abstr_calls and len(e.args) == 1 and not e.keywords:
+            nm, t = self.abstr_calls[ast.unparse(e.func)]
+            a, ta = self.expr(e.args[0])
+            if ta != "Z" or t != "fun:Z->list:Z":
+                fail(e, "argument of an abstracted method")
+            return "(%s %s)" % (nm, a), "list:Z"
+        if isinstance(e, ast.Call) and ast.unparse(e.func) in self.wrapcalls:
+            # conversion of the embedded matrices to the object's representation: opaque, the payload is kept
+            k = self.wrapcalls[ast.unparse(e.func)]
+            if len(e.args) <= k:
+                fail(e, "payload argument of %s" % ast.unparse(e.func))
+            return self.expr(e.args[k])
+        if isinstance(e, ast.Call) and ast.unparse(e.func) == self.embcall and self.embcall:
+            if len(e.args) != 4 or e.keywords:
+                fail(e, "embedding call shape")
+            m, tm = self.expr(e.args[2]); c, tc = self.expr(e.args[3])
+            if tm != "Z":
+                fail(e, "embedded matrix must be an opaque id")
+            if tc == "Z":
+                c, tc = "(CConst %s)" % c, "coef"
+            if tc != "coef":
+                fail(e, "padding coefficient of type %s" % tc)
+            return "(%s, %s)" % (m, c), "prod:Z,coef"
+        if isinstance(e, ast.BinOp) and isinstance(e.op, ast.Div):
+            if not (isinstance(e.left, ast.Constant) and e.left.value == 1 and type(e.left.value) is int):
+                fail(e, "only 1 / e is supported")
+            d = e.right
+            if isinstance(d, ast.Call) and ast.unparse(d.func) == "np.sqrt" and len(d.args) == 1 and not d.keywords:
+                a, ta = self.expr(d.args[0])
+                if ta != "Z":
+                    fail(e, "np.sqrt of %s" % ta)
+                return "(CInvSqrt %s)" % a, "coef"
+            a, ta = self.expr(d)
+            if ta != "Z":
+                fail(e, "1 / %s" % ta)
+            return "(CInv %s)" % a, "coef"
+        if isinstance(e, ast.Call) and ast.unparse(e.func) in self.treecalls and not e.keywords and len(e.args) == 2:
+            a, ta = self.expr(e.args[0]); b, tb = self.expr(e.args[1])
+            if ta != "ptree" or tb != "ptree":
+                fail(e, "binary product of %s, %s" % (ta, tb))
+            return "(PNode %s %s)" % (a, b), "ptree"
         if isinstance(e, ast.Call) and ast.unparse(e.func) in self.paircalls and not e.keywords and len(e.args) == self.paircalls[ast.unparse(e.func)]:
             a, ta = self.expr(e.args[0]); b, tb = self.expr(e.args[1])
             if ta != "Z" or tb != "Z":
@@ -222,6 +267,8 @@ class Fn:
             i, ti = self.expr(sl)
             if tv == "list:Z" and ti == "Z":
                 return "(pynth %s %s)" % (v, i), "Z"
+            if tv == "list:ptree" and ti == "Z":
+                return "(nth (pyidx %s %s) %s (PLeaf 0))" % (v, i, v), "ptree"
             fail(e, "subscript of %s by %s" % (tv, ti))
         if isinstance(e, ast.Call):
             fn = ast.unparse(e.func)
@@ -580,14 +627,29 @@ class Fn:
         ast.copy_location(new_ret, rt); ast.fix_missing_locations(new_ret)
         return body[:-3] + [new_ret]
 
+    def check_starred(self, node):
+        if ast.unparse(node) in self.abstr:
+            return
+        if isinstance(node, ast.Starred):
+            fail(node, "construct outside the subset")
+        for ch in ast.iter_child_nodes(node):
+            self.check_starred(ch)
+
     def translate(self):
         f = self.f
+        for st in f.body:
+            self.check_starred(st)
         names = [a.arg for a in f.args.args]
-        if f.args.vararg or f.args.kwarg or f.args.kwonlyargs or f.args.defaults:
+        if f.args.vararg and not (self.allow_vararg and f.args.vararg.arg == self.allow_vararg):
+            fail(f, "parameter list (*args)")
+        if f.args.kwarg or f.args.kwonlyargs or f.args.defaults:
             fail(f, "parameter list")
         if names != [p for p, _ in self.params]:
             fail(f, "parameters %s, expected %s" % (names, [p for p, _ in self.params]))
         plist = []
+        for src, (nm, t) in self.abstr.items():
+            self.types[nm] = t
+            plist.append("(%s : %s)" % (nm, ctype(t)))
         for p, t in self.params:
             self.types[p] = t
             plist.append("(%s : %s)" % (p, ctype(t)))
@@ -618,9 +680,10 @@ class Fn:
 class SliceFn(Fn):
     """translate the slice of an object-level function that feeds the constructor arguments picked by `pick(fdef)`"""
 
-    def __init__(self, fdef, coq_name, abstr, abstr_index, paircalls, pick, opnames):
+    def __init__(self, fdef, coq_name, abstr, abstr_index, paircalls, pick, opnames, abstr_calls=None, wrapcalls=None, embcall=None):
         Fn.__init__(self, fdef, [], coq_name, {})
         self.abstr, self.abstr_index, self.paircalls = abstr, abstr_index, paircalls
+        self.abstr_calls, self.wrapcalls, self.embcall = abstr_calls or {}, wrapcalls or {}, embcall
         self.pick, self.opnames = pick, opnames
 
     def names_of(self, node):
@@ -628,8 +691,27 @@ class SliceFn(Fn):
         out = set()
 
         def go(n):
+            if ast.unparse(n) in self.abstr:
+                return
             if isinstance(n, ast.Call) and ast.unparse(n.func) in self.paircalls:
                 for a in n.args[:2]:
+                    go(a)
+                return
+            if isinstance(n, ast.Call) and self.embcall and ast.unparse(n.func) == self.embcall:
+                for a in n.args[2:4]:
+                    go(a)
+                return
+            if isinstance(n, ast.Call) and ast.unparse(n.func) in self.wrapcalls:
+                k = self.wrapcalls[ast.unparse(n.func)]
+                if len(n.args) > k:
+                    go(n.args[k])
+                return
+            if isinstance(n, ast.Call) and ast.unparse(n.func) in self.abstr_calls:
+                for a in n.args:
+                    go(a)
+                return
+            if isinstance(n, ast.Call) and ast.unparse(n.func) == "np.sqrt":
+                for a in n.args:
                     go(a)
                 return
             if isinstance(n, ast.Call) and isinstance(n.func, ast.Name):
@@ -655,6 +737,8 @@ class SliceFn(Fn):
         for n in ast.walk(f):
             if isinstance(n, ast.Call) and isinstance(n.func, ast.Attribute):
                 base = ast.unparse(n.func.value)
+                if ast.unparse(n) in self.abstr or ast.unparse(n.func) in self.abstr_calls:
+                    continue            # a read-only accessor that is abstracted as a whole
                 if base in self.abstr or base in self.abstr_index or base in self.opnames:
                     fail(n, "method call on an operand / abstracted attribute")
             if isinstance(n, (ast.Assign, ast.AugAssign)):
@@ -683,10 +767,10 @@ class SliceFn(Fn):
         for st in kept:
             if not (set(self.assigned([st])) & tracked):
                 fail(st, "statement mentions tracked names %s without defining one (aliasing?)" % sorted(tracked))
-        ret = ast.Return(value=ast.Tuple(elts=list(results), ctx=ast.Load()))
+        ret = ast.Return(value=results[0] if len(results) == 1 else ast.Tuple(elts=list(results), ctx=ast.Load()))
         ast.copy_location(ret, body[-1]); ast.fix_missing_locations(ret)
         plist = []
-        for src, (nm, t) in list(self.abstr.items()) + list(self.abstr_index.items()):
+        for src, (nm, t) in list(self.abstr.items()) + list(self.abstr_index.items()) + list(self.abstr_calls.items()):
             self.types[nm] = t
             plist.append("(%s : %s)" % (nm, ctype(t)))
         self.ret_type = None
@@ -726,6 +810,27 @@ def pick_mprocess(self_holder):
     return pick
 
 
+def pick_ctor(cname, kws):
+    """return NAME with NAME = <cname>(c_sys_qubits, PAYLOAD, kw=...)  ->  [PAYLOAD] + [kw values]"""
+    def mk(self_holder):
+        def pick(f):
+            body = f.body
+            rt = body[-1]
+            if not (isinstance(rt, ast.Return) and isinstance(rt.value, ast.Name)):
+                fail(rt, "return of a name expected")
+            defs = [st for st in body if isinstance(st, ast.Assign) and len(st.targets) == 1 and isinstance(st.targets[0], ast.Name) and st.targets[0].id == rt.value.id]
+            if len(defs) != 1 or not ctor_call(defs[0].value, cname):
+                fail(rt, "the returned name must be bound exactly once, to %s(...)" % cname)
+            c = defs[0].value
+            kw = {k.arg: k.value for k in c.keywords}
+            if len(c.args) != 2 or not (isinstance(c.args[0], ast.Name) and c.args[0].id == "c_sys_qubits") or any(k not in kw for k in kws):
+                fail(c, "%s(c_sys_qubits, payload, %s...) expected" % (cname, "".join(k + "=, " for k in kws)))
+            self_holder.append(defs[0])
+            return [c.args[1]] + [kw[k] for k in kws]
+        return pick
+    return mk
+
+
 def pick_ensemble(self_holder):
     """return StateEnsemble(STATES, MD) with MD = MultinomialDistribution(PS, shape=SHAPE)  ->  [STATES, PS, SHAPE]"""
     def pick(f):
@@ -745,6 +850,67 @@ def pick_ensemble(self_holder):
         self_holder.append(defs[0])
         return [rt.value.args[0], c.args[0], kw["shape"]]
     return pick
+
+
+TYPE_CODES = {"Gate": 0, "MProcess": 1, "SparseMatrixBasis": 2, "MatrixBasis": 3, "State": 4, "StateEnsemble": 5, "Povm": 6}
+CALLEE_CODES = {"_tensor_product_Gate_Gate": 0, "_tensor_product_Gate_MProcess": 1, "_tensor_product_MProcess_Gate": 2,
+                "_tensor_product_MProcess_MProcess": 3, "_tensor_product_State_State": 4,
+                "_tensor_product_StateEnsemble_StateEnsemble": 5, "_tensor_product_Povm_Povm": 6}
+
+
+def translate_dispatch(f):
+    """_tensor_product(elem1, elem2): one if / elif chain on the exact types of the two operands.
+    -> gen_tp_dispatch (t1 t2 : Z) : option Z   (type codes TYPE_CODES; action codes: CALLEE_CODES = `return F(elem1, elem2)`,
+    10 / 11 = basis of all matrix_util.kron(v1, v2) over itertools.product(elem1, elem2) as Sparse / dense MatrixBasis,
+    20 = StateEnsemble([tensor_product(elem1, s) for s in elem2.states], elem2.prob_dist), 21 = the mirror image; None = TypeError)"""
+    if [a.arg for a in f.args.args] != ["elem1", "elem2"] or f.args.vararg or f.args.kwarg or f.args.defaults:
+        fail(f, "parameters")
+    body = [st for st in f.body if not (isinstance(st, ast.Expr) and isinstance(st.value, ast.Constant))]
+    if len(body) != 1 or not isinstance(body[0], ast.If):
+        fail(f, "body must be a single if / elif chain")
+
+    def tycode(e, who):
+        ok = isinstance(e, ast.Compare) and len(e.ops) == 1 and isinstance(e.ops[0], ast.Eq) and ast.unparse(e.left) == "type(%s)" % who \
+            and isinstance(e.comparators[0], ast.Name) and e.comparators[0].id in TYPE_CODES
+        if not ok:
+            fail(e, "type test on %s" % who)
+        return TYPE_CODES[e.comparators[0].id]
+
+    def action(stmts):
+        stmts = [st for st in stmts if not (isinstance(st, ast.Expr) and isinstance(st.value, ast.Constant))]
+        src = [ast.unparse(st) for st in stmts]
+        if len(stmts) == 1 and isinstance(stmts[0], ast.Return) and isinstance(stmts[0].value, ast.Call):
+            c = stmts[0].value
+            fn = ast.unparse(c.func)
+            if fn in CALLEE_CODES and not c.keywords and [ast.unparse(a) for a in c.args] == ["elem1", "elem2"]:
+                return CALLEE_CODES[fn]
+        for cls, code in (("SparseMatrixBasis", 10), ("MatrixBasis", 11)):
+            if len(stmts) == 3 and src[0].replace(" ", "") == "new_basis=[matrix_util.kron(val1,val2)forval1,val2initertools.product(elem1,elem2)]" \
+                    and src[1] == "m_basis = %s(new_basis)" % cls and src[2] == "return m_basis":
+                return code
+        if src == ["new_states = [tensor_product(elem1, state) for state in elem2.states]", "return StateEnsemble(new_states, elem2.prob_dist)"]:
+            return 20
+        if src == ["new_states = [tensor_product(state, elem2) for state in elem1.states]", "return StateEnsemble(new_states, elem1.prob_dist)"]:
+            return 21
+        fail(stmts[0], "branch body outside the known shapes")
+
+    branches = []
+    node = body[0]
+    while True:
+        t = node.test
+        if not (isinstance(t, ast.BoolOp) and isinstance(t.op, ast.And) and len(t.values) == 2):
+            fail(t, "branch condition must be `type(elem1) == A and type(elem2) == B`")
+        branches.append((tycode(t.values[0], "elem1"), tycode(t.values[1], "elem2"), action(node.body)))
+        if len(node.orelse) == 1 and isinstance(node.orelse[0], ast.If):
+            node = node.orelse[0]
+            continue
+        if not (len(node.orelse) == 1 and isinstance(node.orelse[0], ast.Raise) and ast.unparse(node.orelse[0].exc).startswith("TypeError(")):
+            fail(node, "the chain must end with `else: raise TypeError(...)`")
+        break
+    txt = "Definition gen_tp_dispatch (t1 t2 : Z) : option Z :=\n"
+    for a, b, code in branches:
+        txt += "  if ((t1 =? %d) && (t2 =? %d))%%Z%%bool then Some (%d)%%Z else\n" % (a, b, code)
+    return txt + "  None."
 
 
 def find_function(tree, name, cls=None):
@@ -816,11 +982,42 @@ def main():
             if r != rtype:
                 raise Unsupported("%s returns %s, expected %s" % (pyname, r, rtype))
             out += ["(* from quara/objects/operators.py : %s (slice: HS / state pairs in list order, reported shape) *)" % pyname, t, ""]
+        out += ["(* from quara/objects/operators.py : _tensor_product (type dispatch) *)", translate_dispatch(find_function(ops, "_tensor_product")), ""]
+        ff = Fn(find_function(ops, "tensor_product"), [], "gen_tensor_product", {})
+        ff.allow_vararg = "elements"
+        ff.abstr = {"_to_list(*elements)": ("element_list_in", "list:ptree")}
+        ff.treecalls = {"_tensor_product"}
+        tf, rf = ff.translate()
+        if rf != "ptree":
+            raise Unsupported("tensor_product returns %s" % rf)
+        out += ["(* from quara/objects/operators.py : tensor_product (fold over the flattened argument list) *)", tf, ""]
+        emb = "QOperation._calc_matrix_from_qutrits_to_qubits"
+        etable = [
+            ("quara/objects/state.py", "State", "gen_embed_state", {"self.to_density_matrix_with_sparsity()": ("rho", "Z")}, {},
+             {"to_vec_from_density_matrix_with_sparsity": 1}, pick_ctor("State", []), "prod:Z,coef"),
+            ("quara/objects/povm.py", "Povm", "gen_embed_povm", {"self.matrices_with_sparsity()": ("mats", "list:Z")}, {},
+             {"to_vecs_from_matrices_with_sparsity": 1}, pick_ctor("Povm", []), "list:prod:Z,coef"),
+            ("quara/objects/gate.py", "Gate", "gen_embed_gate", {"self.to_kraus_matrices()": ("kraus", "list:Z")}, {},
+             {"to_hs_from_kraus_matrices": 1}, pick_ctor("Gate", []), "list:prod:Z,coef"),
+            ("quara/objects/mprocess.py", "MProcess", "gen_embed_mprocess", {"self.hss": ("self_hss", "list:Z"), "self.shape": ("self_shape", "list:Z")},
+             {"self.to_kraus_matrices": ("krausf", "fun:Z->list:Z")}, {"to_hs_from_kraus_matrices": 1}, pick_ctor("MProcess", ["shape"]),
+             "prod:list:list:prod:Z,coef,list:Z"),
+        ]
+        for path, cls, coq_name, abstr, acalls, wraps, picker, rtype in etable:
+            tree = ast.parse(open(os.path.join(repo, path)).read())
+            holder = []
+            fn = SliceFn(find_function(tree, "_embed_qoperation_from_qutrits_to_qubits", cls=cls), coq_name, abstr, {}, {}, picker(holder),
+                         ["self", "perm_matrix", "c_sys_qubits"], abstr_calls=acalls, wrapcalls=wraps, embcall=emb)
+            fn.ctor_stmts = holder
+            t, r = fn.translate()
+            if r != rtype:
+                raise Unsupported("%s._embed_qoperation_from_qutrits_to_qubits returns %s, expected %s" % (cls, r, rtype))
+            out += ["(* from %s : %s._embed_qoperation_from_qutrits_to_qubits (slice: embedded matrices with their padding coefficient) *)" % (path, cls), t, ""]
     except Unsupported as e:
         print("UNSUPPORTED: %s" % e)
         sys.exit(3)
     open(outpath, "w").write("\n".join(out))
-    print("ok: 8 functions -> %s" % outpath)
+    print("ok: 14 functions -> %s" % outpath)
 
 
 if __name__ == "__main__":
